@@ -364,42 +364,61 @@ def _redelivery(c0, base, m, sent_at, lost, res):
 
 
 def _lost_cas_runs(c0, case, base, cand, res, brng, shape):
-    """Two engine processes handle the same result at once: this one reads
-    the task as RUNNING, the other one completes it first, and this one's
-    compare-and-swap of the task state matches nothing.  Within one process
-    that cannot happen (a transaction is atomic), so the loss is injected:
-    right before the unit's own compare-and-swap of the task state the same
+    """Two engine processes handle the same event at once: this one reads
+    the task (workflow) as unfinished, the other one completes it first, and
+    this one's compare-and-swap of the state matches nothing.  Within one
+    process that cannot happen (a transaction is atomic), so the loss is
+    injected: right before a unit's own compare-and-swap of a task state to
+    a completed state (of a workflow state to a final state) the same
     compare-and-swap is executed 'by the other process'.  The unit that lost
-    must have no further effect: no task created, no start request sent."""
+    must have no further effect: no task created, no start request sent, no
+    result reported to a parent workflow."""
     from mistral.db.v2.sqlalchemy import api as sa_api
-    ms = [m for m in cand if m.method == 'on_action_complete' and
-          not m.raw.get('wf_action')]
-    brng.shuffle(ms)
-    for m in ms[:3]:
-        aid = m.raw.get('action_ex_id') or ''
-        st = {'stolen': None}
+    FINAL = ('SUCCESS', 'ERROR', 'CANCELLED')
+    # targets: compare-and-swaps of the base run (unit label, model, n-th
+    # such call inside the unit)
+    targets = []
+    per_unit = {}
+    for ev in base.world.rec.events:
+        if ev['kind'] == 'CAS' and ev.get('matched') and \
+                ev.get('to') in FINAL and \
+                ev.get('model') in ('TaskExecution', 'WorkflowExecution'):
+            k = (ev.get('ulabel'), ev['model'])
+            per_unit[k] = per_unit.get(k, 0) + 1
+            targets.append((ev.get('ulabel'), ev['model'], per_unit[k]))
+    brng.shuffle(targets)
+    tasks_t = [t for t in targets if t[1] == 'TaskExecution'][:2]
+    wf_t = [t for t in targets if t[1] == 'WorkflowExecution'][:2]
+    for label, model, nth in tasks_t + wf_t:
+        st = {'stolen': None, 'n': 0}
 
-        def hook(w, st=st, aid=aid):
+        def hook(w, st=st, label=label, model=model, nth=nth):
             bhook, _ = _pause_plan(case, {})
+            if bhook:
+                bhook(w)
             orig = sa_api.update_on_match
 
             def uom(id, specimen, values, attempts):
                 u = w.coop.current()
                 if st['stolen'] is None and u is not None and \
-                        aid[:8] in (u.label or '') and \
-                        'on_action_complete' in (u.label or '') and \
-                        type(specimen).__name__ == 'TaskExecution' and \
-                        values.get('state') in ('SUCCESS', 'ERROR'):
-                    st['stolen'] = (u.uid, id, len(w.rec.events))
-                    w.rec.emit('FAULT', fault='cas-lost-to-another-process',
-                               task_ex_id=id, to=values.get('state'))
-                    orig(id, specimen, dict(values), attempts)
+                        u.label == label and \
+                        type(specimen).__name__ == model and \
+                        values.get('state') in FINAL:
+                    st['n'] += 1
+                    if st['n'] == nth:
+                        st['stolen'] = (u.uid, id, len(w.rec.events))
+                        w.rec.emit('FAULT',
+                                   fault='cas-lost-to-another-process',
+                                   model=model, id=id,
+                                   to=values.get('state'))
+                        orig(id, specimen, dict(values), attempts)
                 return orig(id, specimen, values, attempts)
             sa_api.update_on_match = uom
             w._restore_uom = lambda: setattr(sa_api, 'update_on_match',
                                              orig)
+        _, bphases = _pause_plan(case, {})
         run = ec.execute(c0, replay=base.choices, setup_hook=hook,
-                         exc_allow=('ValueError',))
+                         phases=bphases, exc_allow=('ValueError',))
         if hasattr(run.world, '_restore_uom'):
             run.world._restore_uom()
         res['executions'] += 1
@@ -408,23 +427,25 @@ def _lost_cas_runs(c0, case, base, cand, res, brng, shape):
             continue
         if st['stolen'] is None:
             continue
-        uid, tid, seq = st['stolen']
+        uid, oid, seq = st['stolen']
         res['monitor_evaluations']['lost-cas'] = \
             res['monitor_evaluations'].get('lost-cas', 0) + 1
-        res['keys'].append(['lost-cas', shape, aid[:8]])
-        label = None
-        for ev in run.world.rec.events:
-            if ev['kind'] == 'UNIT_END' and ev.get('uid') == uid:
-                label = ev.get('label')
+        res['keys'].append(['lost-cas', shape, model, label])
         effects = []
         for ev in run.world.rec.events[seq:]:
-            mine = ev.get('unit') == uid or (
-                label and (ev.get('ulabel') or '') == 'ptx<' + label)
+            mine = ev.get('unit') == uid or \
+                (ev.get('ulabel') or '') == 'ptx<' + label
             if not mine:
                 continue
             if ev['kind'] == 'RPC_SEND' and ev['method'] in (
                     'start_task', 'start_workflow', 'run_action'):
                 effects.append('sent %s' % ev.get('brief'))
+            if ev['kind'] == 'RPC_SEND' and \
+                    ev['method'] == 'on_action_complete' and \
+                    (ev.get('ids') or {}).get('wf_action') and \
+                    model == 'WorkflowExecution' and \
+                    (ev.get('ids') or {}).get('action_ex_id') == oid:
+                effects.append('reported the workflow to its parent')
             if ev['kind'] == 'ATTR_SET' and \
                     ev.get('model') == 'TaskExecution' and \
                     ev.get('col') == 'workflow_execution_id' and \
@@ -434,10 +455,10 @@ def _lost_cas_runs(c0, case, base, cand, res, brng, shape):
             res['violations'].append({
                 'prop': 'C06', 'monitor': 'lost-cas',
                 'mech': 'effect-after-lost-compare-and-swap',
-                'msg': 'the unit handling the result of action %s lost the '
-                       'compare-and-swap of its task (another process '
-                       'completed it first) and still %s' % (
-                           aid[:8], '; '.join(sorted(set(effects))[:4]))})
+                'model': model,
+                'msg': 'unit %s lost the compare-and-swap of a %s state '
+                       '(another process got there first) and still %s' % (
+                           label, model, '; '.join(sorted(set(effects))[:4]))})
 
 
 def _results_per_run(res, run, what):
